@@ -332,7 +332,7 @@ Proof.
       apply (Hplan false true part ((part + 999) / 1000)); [apply Z.div_pos; lia|reflexivity].
     - apply (Hplan internal false 0 ((msat + 999) / 1000)); [apply Z.div_pos; lia|reflexivity]. }
   destruct (f nc); cbn [exec is_call is_storage andb fault_resp exec_db w_db w_ln w_mem w_active w_calls].
-  - apply (Hafter RErr). reflexivity.
+  - left. reflexivity.
   - apply (Hafter (ROk (find (fun q => mq_hash q =? h) (d_mq db)))). reflexivity.
 Qed.
 
